@@ -225,6 +225,60 @@ func driveUpdates(c *hx.Ctx) error {
 		e.close()
 	}
 
+	// --- updates issued from within the Configure handler: the plugin is registered, Stub.Start has not
+	// returned yet; the update must reach the call-back all the same
+	{
+		e, err := newEnv(c.Out)
+		if err != nil {
+			return err
+		}
+		for i := 0; i < c.Pick(3, 10); i++ {
+			p := newPlug(e, fmt.Sprintf("%02d", 60+i), fmt.Sprintf("G%d", i), api.ValidEvents)
+			u := &updCase{Stream: "updates", N: 2000000 + i, Plugin: p.name, Started: true, Updates: []updItem{}, CbFailed: []updItem{}, Seen: [][]updItem{}, RetFailed: []updItem{}}
+			for j := 0; j <= i%3; j++ {
+				u.Updates = append(u.Updates, updItem{ID: fmt.Sprintf("g%d.%d", i, j), Shares: int64(200 + j)})
+			}
+			if i%2 == 1 {
+				u.CbFailed = append(u.CbFailed, u.Updates[0])
+			}
+			var mu sync.Mutex
+			e.setUpdateFn(func(_ context.Context, us []*adaptation.ContainerUpdate) ([]*adaptation.ContainerUpdate, error) {
+				mu.Lock()
+				defer mu.Unlock()
+				u.Seen = append(u.Seen, toItems(us))
+				return fromItems(u.CbFailed), nil
+			})
+			p.onConfigure = func() {
+				failed, uerr := p.st.UpdateContainers(fromItems(u.Updates))
+				mu.Lock()
+				u.RetFailed = toItems(failed)
+				if uerr != nil {
+					u.RetErr = uerr.Error()
+				}
+				mu.Unlock()
+			}
+			started := make(chan error, 1)
+			go func() { started <- p.startStub(e.sock) }()
+			select {
+			case <-started:
+			case <-time.After(40 * time.Second):
+				c.ImplFail("updates", "Stub.Start did not return within 40 s when the Configure handler issues an unsolicited update", u)
+			}
+			mu.Lock()
+			sh.Add(updCaseTerm(u), u)
+			why := updOracle(u)
+			mu.Unlock()
+			if why != "" {
+				c.ImplFail("updates", why+" (update issued from within the Configure handler)", u)
+			}
+			c.Eval(fmt.Sprintf("configure-update/%d", i), true)
+			c.Count("updates.from_configure_handler", 1)
+			go p.stop()
+		}
+		e.setUpdateFn(nil)
+		e.close()
+	}
+
 	rounds := c.Pick(10, 24)
 	perPlugin := c.Pick(40, 100)
 	totalUpd, totalOverlapCB, totalOverlapH, withErr, withFailed, emptyList := 0, 0, 0, 0, 0, 0
